@@ -2,7 +2,7 @@
 import itertools
 import sys
 
-from mc import core, lib
+from mc import core, hist, lib
 
 ENGINE = "E1-sweep"
 RULE = ("all well-formed sequences on the tick lattice (pairs over the full lattice, triples/quads over a reduced one, "
@@ -10,7 +10,7 @@ RULE = ("all well-formed sequences on the tick lattice (pairs over the full latt
         "lists of length 1..3 over {2,3,5} + lists longer than the sequence; distinct = distinct (notes, events, dur, "
         "capacities, build); non-trivial = a note crosses a boundary or an event sits on one")
 ASSUMPTIONS = ["source sequences are well-formed with integer ticks (property precondition)"]
-REQUIRED_FLAGS = ["note_crosses_two_boundaries", "event_on_boundary", "event_on_final_tick", "same_pitch_two_channels",
+REQUIRED_FLAGS = ["after_history", "note_crosses_two_boundaries", "event_on_boundary", "event_on_final_tick", "same_pitch_two_channels",
                   "remainder_piece", "capacities_longer_than_sequence", "trailing_rest", "leading_rest"]
 
 PITCH_VARIANTS = [60, 21, 107, 64]
@@ -67,6 +67,8 @@ def units(ctx):
     if ctx["tier"] != "quick":
         for i in range(len(_red4(ctx))):
             yield ("quads", i)
+    yield from hist.hist_units()
+    yield ("extremes",)
 
 
 def _mk(notes):
@@ -84,6 +86,20 @@ def gen_cases(unit, ctx):
     L = ctx["L"]
     p, (c0, c1) = ctx["p"], ctx["ch"]
     kind = unit[0]
+    if kind == "hist":
+        for h in hist.hist_of_unit(unit):
+            for caps in ([5], [30, 7], [84, 144], [3, 3, 3], [1000]):
+                yield {"seed": unit[1], "build": unit[2], "hist": h, "caps": caps}
+        return
+    if kind == "extremes":
+        # both limits of the pitch range on neighbouring channels, and channels 8..15 beside low ones, one tick apart
+        for (pa, ca), (pb, cb) in (((108, 0), (21, 1)), ((21, 0), (108, 1)), ((108, 9), (21, 10)), ((127, 12), (0, 2)),
+                                   ((108, 15), (21, 0)), ((60, 9), (60, 0))):
+            for oa, la in ((0, 8), (1, 6), (2, 3)):
+                for ob, lb in ((0, 8), (2, 6), (3, 1), (1, 1)):
+                    for c in _emit(_mk([(oa, la, pa, ca), (ob, lb, pb, cb)]), []):
+                        yield c
+        return
     if kind == "single":
         for caps in CAPS:
             yield {"notes": [], "events": [], "dur": None, "caps": caps, "build": "abs"}
@@ -148,8 +164,15 @@ def vel_roll(notes):
 
 def check_case(case, ctx):
     R = core.Res()
-    notes, events, dur, caps, build = case["notes"], case["events"], case["dur"], case["caps"], case["build"]
-    src = (lib.seq_abs if build == "abs" else lib.seq_rel)(notes, events, dur)
+    caps = case["caps"]
+    if "hist" in case:
+        live = hist.live_case(case, R, ctx["p"], *ctx["ch"], hp=ctx["p"] - 20)
+        if live is None:
+            return R
+        src, notes, events, dur = live
+    else:
+        notes, events, dur, build = case["notes"], case["events"], case["dur"], case["build"]
+        src = (lib.seq_abs if build == "abs" else lib.seq_rel)(notes, events, dur)
     D = max([n[0] + n[1] for n in notes] + [e[1] for e in events] + [dur or 0])
     before = lib.obs(src)
     try:
